@@ -39,6 +39,15 @@ Theorem C04_gen_json_escape : forall val buf,
 Proof. exact GenEscP.gen_json_escape. Qed.
 Print Assumptions C04_gen_json_escape.
 
+(* a member name goes through that escaper between two quotes (JSON mode) or is copied (otherwise):
+   PrintCtx.pcAppendStringKey as it is in /repo now; a helper it calls (a fast path) would be
+   translated with it *)
+Theorem C04_gen_string_key : forall jsonMode buf str,
+  Escapes.string_key Tables.t_hex Tables.t_safeSet jsonMode buf str =
+  Some (buf ++ if jsonMode then json_quote str else str).
+Proof. exact GenEscP.gen_string_key. Qed.
+Print Assumptions C04_gen_string_key.
+
 (* The quoted form of ANY byte string (quotes, backslashes, CR/LF, control characters,
    U+2028/9, invalid UTF-8, ...) followed by anything is read back by the JSON parser as
    one string, the text a UTF-8 reader sees, leaving exactly what followed. *)
